@@ -2,6 +2,7 @@
 // sequence (p_bytes.rs) whose length can be read, the per-NLRI encoder as an uninterpreted byte string.
 use vstd::prelude::*;
 use bytes::BufMut;
+use std::sync::Arc;
 use crate::bgp::*;
 use super::*;
 verus! {
@@ -21,6 +22,16 @@ pub fn vx_buf_patch_u16<B: BufMut + AsMut<[u8]>>(dst: &mut B, pos: usize, v: u16
 {
     use byteorder::{NetworkEndian, WriteBytesExt};
     (&mut dst.as_mut()[pos..]).write_u16::<NetworkEndian>(v).unwrap();
+}
+#[verifier::external_body]
+pub fn vx_buf_patch_u8<B: BufMut + AsMut<[u8]>>(dst: &mut B, pos: usize, v: u8)
+    requires pos + 1 <= (*old(dst)).bytes().len(),
+    ensures
+        (*final(dst)).bytes().len() == (*old(dst)).bytes().len(),
+        (*final(dst)).bytes() == (*old(dst)).bytes().update(pos as int, v),
+{
+    use byteorder::WriteBytesExt;
+    (&mut dst.as_mut()[pos..]).write_u8(v).unwrap();
 }
 /// `dst.put_bytes(0, n)`: n zero bytes
 #[verifier::external_body]
@@ -45,9 +56,9 @@ pub uninterp spec fn pn_nlri(p: PathNlri) -> Nlri;
 pub uninterp spec fn pn_path_id(p: PathNlri) -> u32;
 /// `item.nlri.encode(dst).unwrap()` for a PathNlri
 #[verifier::external_body]
-pub fn vx_pathnlri_encode_into<B: BufMut>(p: &PathNlri, dst: &mut B)
-    ensures (*final(dst)).bytes() == (*old(dst)).bytes() + nlri_wire(pn_nlri(*p)),
-{ p.nlri.encode(dst).unwrap(); }
+pub fn vx_pathnlri_encode_into<B: BufMut>(p: &PathNlri, dst: &mut B) -> (r: u16)
+    ensures (*final(dst)).bytes() == (*old(dst)).bytes() + nlri_wire(pn_nlri(*p)), r as int == nlri_wire(pn_nlri(*p)).len(),
+{ p.nlri.encode(dst).unwrap() }
 #[verifier::external_body]
 pub fn vx_pathnlri_path_id(p: &PathNlri) -> (r: u32)
     ensures r == pn_path_id(*p),
@@ -64,6 +75,87 @@ pub assume_specification[ Family::afi ](f: &Family) -> (r: u16)
 ;
 pub assume_specification[ Family::safi ](f: &Family) -> (r: u8)
     ensures r == fam_safi(*f),
+;
+
+
+// ---- types and callees seen by do_encode ---------------------------------------------------------------------------
+#[verifier::external_type_specification]
+#[verifier::external_body]
+pub struct ExErrorEnc(crate::error::Error);
+#[verifier::external_type_specification]
+pub struct ExIpAddrEnc(std::net::IpAddr);
+#[verifier::external_type_specification]
+#[verifier::external_body]
+pub struct ExIpv4AddrEnc(std::net::Ipv4Addr);
+#[verifier::external_type_specification]
+#[verifier::external_body]
+pub struct ExIpv6AddrEnc(std::net::Ipv6Addr);
+
+pub uninterp spec fn holdtime_secs(h: HoldTime) -> u16;
+pub assume_specification[ HoldTime::seconds ](h: HoldTime) -> (r: u16)
+    ensures r == holdtime_secs(h),
+;
+pub uninterp spec fn nh_addr(n: Nexthop) -> std::net::IpAddr;
+pub assume_specification[ Nexthop::addr ](n: &Nexthop) -> (r: std::net::IpAddr)
+    ensures r == nh_addr(*n),
+;
+pub uninterp spec fn ip4_octets(a: std::net::Ipv4Addr) -> Seq<u8>;
+pub assume_specification[ std::net::Ipv4Addr::octets ](a: &std::net::Ipv4Addr) -> (r: [u8; 4])
+    ensures r@ == ip4_octets(*a), r@.len() == 4,
+;
+pub assume_specification<T: Clone>[ <[T]>::to_vec ](s: &[T]) -> (r: Vec<T>)
+    ensures r@.len() == s@.len(),
+;
+/// `attr.as_ref()` on an Arc<Vec<Attribute>>
+#[verifier::external_body]
+pub fn vx_arc_vec_ref(a: &Arc<Vec<Attribute>>) -> (r: &Vec<Attribute>)
+    ensures r@ == a@,
+{ a.as_ref() }
+pub uninterp spec fn notif_code(n: Notification) -> u8;
+pub uninterp spec fn notif_subcode(n: Notification) -> u8;
+pub uninterp spec fn notif_data(n: Notification) -> Seq<u8>;
+pub assume_specification[ Notification::notification_code ](n: &Notification) -> (r: u8)
+    ensures r == notif_code(*n),
+;
+pub assume_specification[ Notification::notification_subcode ](n: &Notification) -> (r: u8)
+    ensures r == notif_subcode(*n),
+;
+pub assume_specification[ Notification::notification_data ](n: &Notification) -> (r: &[u8])
+    ensures r@ == notif_data(*n),
+;
+/// the raw (afi << 16 | safi) value of a family (tuple-struct field read)
+pub uninterp spec fn fam_raw(f: Family) -> u32;
+/// `&entries[start..]` (panics when start > len: obligation)
+#[verifier::external_body]
+pub fn vx_entries_from(e: &Vec<PathNlri>, start: usize) -> (r: &[PathNlri])
+    requires start <= e@.len(),
+    ensures r@ == e@.subrange(start as int, e@.len() as int),
+{ &e[start..] }
+
+/// wire forms of capabilities and attributes (their encoders are not under contract here)
+pub uninterp spec fn cap_wire(c: Capability) -> Seq<u8>;
+pub uninterp spec fn attr_wire(a: Attribute) -> Seq<u8>;
+pub uninterp spec fn sp_new_with_bin(code: u8, b: Seq<u8>) -> Option<Attribute>;
+pub assume_specification[ Attribute::new_with_bin ](code: u8, b: Vec<u8>) -> (r: Option<Attribute>)
+    ensures r == sp_new_with_bin(code, b@), (code == 2 || code == 3 || code == 7 || code == 17 || code == 18) ==> r is Some,
+;
+pub uninterp spec fn attr_binary(a: Attribute) -> Option<Seq<u8>>;
+pub assume_specification[ Attribute::binary ](a: &Attribute) -> (r: Option<&Vec<u8>>)
+    ensures
+        r is None <==> attr_binary(*a) is None,
+        r is Some ==> attr_binary(*a) == Some(r->Some_0@),
+;
+pub assume_specification[ Attribute::as_path_strip_confed ](a: &Attribute) -> (r: Attribute)
+    requires attr_code(*a) == 2, attr_binary(*a) is Some,
+    ensures attr_binary(r) is Some,
+;
+
+
+/// the NEXT_HOP attribute built from 4 octets is flags, code, length, 4 octets on the wire (assumed: encode_wire of a
+/// short attribute is a 3-byte header + value)
+pub broadcast axiom fn axiom_nexthop_attr_wire(b: Seq<u8>)
+    requires b.len() == 4, sp_new_with_bin(3, b) is Some,
+    ensures #[trigger] attr_wire(sp_new_with_bin(3, b)->Some_0).len() == 7,
 ;
 
 } // verus!
